@@ -955,6 +955,12 @@ def cksum_texts(ctx):
         for rep in (perm[0], perm[1].upper()):
             out.append(",".join("%s:%02x" % (x, 17 * i) for i, x in enumerate(list(perm) + [rep])))
     out += [",".join("hash%02d:%02xab" % (i, i) for i in reversed(range(n_))) for n_ in (8, 16, 17, 32, 33, 40, 64, 65, 100)]
+    # digests in other encodings (SRI / base64, base64url, base32, with the algorithm glued on): not hex, refused
+    out += ["sha256:47DEQpj8HBSa+/TImW+5JCeuQeRkm5NMpJWZG3hSuFU=", "sha1:2jmj7l5rSw0yVb/vlWAYkK/YBwk=", "SHA256:47DEQpj8HBSa+/TImW+5JCeuQeRkm5NMpJWZG3hSuFU=",
+            "sha512:z4PhNX7vuL3xVChQ1m2AB9Yg5AULVxXcg/SpIdNs6c5H0NE8XYXysP+DGNKHfuwvY7kxvUdBeoGlODJ6+SfaPg==", "sha256:47DEQpj8HBSa-_TImW-5JCeuQeRkm5NMpJWZG3hSuFU",
+            "md5:1B2M2Y8AsgTpgAmY7PhCfg==", "sha256-47DEQpj8HBSa+/TImW+5JCeuQeRkm5NMpJWZG3hSuFU=", "sha1:3I42H3S6NNFQ2MSVX7XZKYAYSCX5QBYJ", "sha256:00,sha1:2jmj7l5rSw0yVb/vlWAYkK/YBwk="]
+    # algorithm names that only differ in how their numbers are written (a "natural" order would tie or reorder them)
+    out += ["sha01-1:aa,sha1-01:bb", "sha1-01:bb,sha01-1:aa", "a1:00,a01:11,a001:22", "sha2:00,sha10:11", "sha10:11,sha2:00", "v1.10:00,v1.9:11,v1.09:22"] * 4
     out += ["sha512:" + "ab" * n_ for n_ in (20, 32, 64, 65, 128, 129, 256)] + ["sha1:" + "AB" * 64 + ",md5:" + "0f" * 16]
     out += ["sha1:+aFF", "sha1:0x1F", "sha1:0x", "sha1:0X1f", "sha256:0xdeadbeef", "md5:00ff,sha1:0XAB", "sha1:1e", "sha1:١٢", "sha1:ａｂ", "a:00,b", "a:00,,b:11", "a::00", ":00", "a:", ","]
     if ctx.tier == "thorough":
@@ -1213,6 +1219,23 @@ def inject(r, kind_wanted, idx_wanted, text_fn):
             return text_fn(raw, ctx)
         return spelled
     return hook, done
+
+
+def st_dup_keys(shapes):
+    """one key twice (same or another letter case) with two non-empty values, for ordinary and well-known keys, next to
+    each other and with another key in between: refused"""
+    out = []
+    vals = {"checksum": ("sha1:aa", "md5:bb"), "arch": ("x86", "arm"), "repository_url": ("https://a.example/", "https://b.example/"), "file_name": ("a.tgz", "b.tgz"),
+            "vcs_url": ("git+https://a/b", "git+https://c/d"), "k": ("1", "2")}
+    for k_, (v1, v2) in vals.items():
+        for k2 in (k_, k_.upper(), k_.capitalize()):
+            for mid in ("", "&a=1", "&zz=9"):
+                for x_, y_ in ((v1, v2), (v1, v1)):
+                    s_ = "pkg:%s/name?%s=%s%s&%s=%s" % ("generic", k_, x_, mid, k2, y_)
+                    for sh in shapes:
+                        s2_ = s_ if sh != "P" else s_.replace("pkg:generic/", "pkg:npm/")
+                        out.append(case("parse %s %s" % (sh, hx(s2_)), "dup-parse", s=s2_, shape=sh))
+    return out
 
 
 def st_scheme_subst(shapes):
